@@ -1312,3 +1312,47 @@ def gen_conc(seed, n, start_id=0):
             lines.append("pinprune %d %d %s" % (v, nn, rng.choice(["export:pinned", "export:pinned", "export:before-pin", "prune:checked"])))
         out.append(("q%d" % (start_id + i), lines))
     return out
+
+
+# ---------------------------------------------------------------------------------------------
+# C13, direction "independent encoder writes, library reads": a history whose store is replaced by
+# the database image the *model* encodes for one retained version
+
+def gen_encodedb(seed, n, start_id=0):
+    out = []
+    prof = Profile(p_prune=0.15, p_loadow=0.05, p_reopen=0.1, check_all_versions=0.0, big=0.15, dump=0.0,
+                   reads_per_version=(0, 1), imm_reads_per_version=(0, 0), meta_per_version=(0, 0),
+                   p_hash_read=0.0, versions=(1, 6), p_empty_value=0.1, dbs=["mem"], ivs=[None])
+    for i in range(n):
+        rng = random.Random((seed * 2147483629 + start_id + i) & 0xFFFFFFFFFFFF)
+        hid = "e%d" % (start_id + i)
+        h = Hist(rng, prof, hid)
+        lines = h.run()
+        if h.dirty:
+            lines.append("rollback")
+        vs = sorted(h.versions)
+        if not vs:
+            out.append((hid, lines))
+            continue
+        v = rng.choice(vs)
+        lines.append("cfg cache=%d fast=%d thr=%d iv=-" % (rng.choice([0, 3, 100]), rng.randint(0, 1), rng.choice([0, 300])))
+        lines.append("encodedb %d" % v)
+        m = h.versions[v]
+        lines += ["avail", "latest", "lhash", "hash", "size", "height", "miterate", "imm %d iterate" % v, "imm %d hash" % v]
+        for k in sorted(m)[:8]:
+            lines.append("get " + enc(k))
+            lines.append("gwi " + enc(k))
+            if m[k] != b"":
+                lines.append("imm %d proof %s" % (v, enc(k)))
+        lines.append("gbi 0")
+        lines.append("imm %d export plain" % v)
+        for _ in range(rng.randint(1, 3)):
+            for _ in range(rng.randint(0, 4)):
+                if rng.random() < 0.3 and m:
+                    lines.append("rm " + enc(rng.choice(sorted(m))))
+                else:
+                    lines.append("set %s %s" % (enc(rng.choice(h.keys)), enc(bytes([rng.randrange(256)]))))
+            lines.append("save")
+        lines += ["avail", "miterate", "lhash", "dump"]
+        out.append((hid, lines))
+    return out
